@@ -143,6 +143,7 @@ func c03Alphabet(c *vfCtx) []c03Op {
 	vals := []string{"a", "b", "[TestA - 2]"}
 	if c.thorough() {
 		tests = append(tests, "TestB")
+		// (names with characters that mean something elsewhere - `[x]`, `.snap`, `%d`, `:` - are exercised in the linear families below)
 		vals = append(vals, "x\n\n[TestA - 2]\ny")
 	}
 	var ops []c03Op
@@ -437,7 +438,7 @@ func c03Linear(c *vfCtx, emit func(c03Case)) {
 			emit(c03Case{Ops: ops2})
 		}
 		// two tests interleaved call by call, one a name-prefix of the other
-		for _, other := range []string{"TestA/s", "TestAB", "TestA1"} {
+		for _, other := range []string{"TestA/s", "TestAB", "TestA1", "TestA/[x]", "TestA/x.snap", "TestA/_%d", "TestA/a:b"} {
 			var ops []c03Op
 			a, b := mk("TestA", n, nil, nil, "a"), mk(other, n, nil, nil, "b")
 			for i := range a {
